@@ -47,13 +47,15 @@ Section EVAL.
         | None => Ret None
         | Some (o, v1') =>
             let inplace := is_assign_text text in
-            (if inplace then
-               match o, d_obj dat with
-               | Val _ _, Some lo' => Prim (PSetObj lo' (ONum tn1 t1 v1'))
-               | _, _ => Ret tt
-               end
-             else Ret tt) ;;;
-            d <- box_outcome o l inplace on_reject ;; Ret (Some d)
+            (* the in-place operators write through t_lhs's mutable pointer, which is null for a const or returned value *)
+            ok <- (if inplace && mutable_lhs then
+                     match o with
+                     | Val _ _ => Prim (PWrite l (ONum tn1 t1 v1'))
+                     | _ => Ret true
+                     end
+                   else Ret (negb inplace || match o with Val _ _ => false | _ => true end)) ;;
+            if ok : bool then d <- box_outcome o l inplace on_reject ;; Ret (Some d)
+            else eval_error on_reject
         end
     | _, _ => Ret None
     end.
@@ -81,17 +83,11 @@ Section EVAL.
     else None.
 
   (* a reference to the object of `d` (Handle_Return<T&>): a new Boxed_Value aliasing the object *)
-  Definition reference_to (d : dloc) : prog dloc :=
-    x <- Prim (PGetData d) ;; Prim (PAllocData (mkdata (d_obj x) (d_const x) true)).
+  Definition reference_to (d : dloc) : prog dloc := Prim (PAlias d true).
 
   (* overwrite the object of a non-const Boxed_Value in place *)
   Definition write_through (d : dloc) (o : obj) (opname : string) : prog unit :=
-    x <- Prim (PGetData d) ;;
-    if d_const x then dispatch_error opname
-    else match d_obj x with
-         | Some l => Prim (PSetObj l o)
-         | None => dispatch_error opname
-         end.
+    ok <- Prim (PWrite d o) ;; if ok : bool then Ret tt else dispatch_error opname.
 
   (* operators that are not Boxed_Number operations: dispatch over the (modelled) registered functions *)
   Definition call_operator (text : string) (l r : dloc) : prog dloc :=
@@ -127,8 +123,8 @@ Section EVAL.
         end
     | Some (OFun _), Some (OFun _) =>
         (* ptr_assign<Proxy_Function_Base>: lhs.assign(Boxed_Value(rhs)) *)
-        dl' <- Prim (PGetData l) ;; dr <- Prim (PGetData r) ;;
-        if d_const dl' then dispatch_error "=" else Prim (PSetData l (mkdata (d_obj dr) false false)) ;;; Ret l
+        dl' <- Prim (PGetData l) ;;
+        if d_const dl' then dispatch_error "=" else Prim (PRebindFun l r) ;;; Ret l
     | Some (OMap _), Some (OMap _) | Some (OFun _), _ | Some (ODyn _ _), _ => unsup "assignment of maps/objects"
     | _, _ => dispatch_error "="
     end.
@@ -327,7 +323,7 @@ Section EVAL.
           match n_un ops text (negb (d_const dd)) t v with
           | None => unsup ("prefix " ++ text)
           | Some (oc, v') =>
-              (if incdec then match oc, d_obj dd with Val _ _, Some lo => Prim (PSetObj lo (ONum tn t v')) | _, _ => Ret tt end else Ret tt) ;;;
+              (if incdec then match oc with Val _ _ => Prim (PWrite d (ONum tn t v')) ;;; Ret tt | _ => Ret tt end else Ret tt) ;;;
               match oc with
               | Val t' x => if incdec then Ret d else new_value (ONum (tyname_of_nty t') t' x) true false
               | ArithErr => arith_error
@@ -439,16 +435,16 @@ Section EVAL.
             else Ret tt) ;;; void_var.
 
   (* the For_Loop optimizer's native closure: for (var i = C1; i < C2; ++i) with int constants *)
-  Definition counter_below (counter : oloc) (hi : Z) : prog bool :=
-    o <- Prim (PGetObj counter) ;;
+  Definition counter_below (counter : dloc) (hi : Z) : prog bool :=
+    o <- obj_of counter ;;
     match o with
-    | ONum _ _ (VI i) => Ret (i <? hi)%Z
+    | Some (ONum _ _ (VI i)) => Ret (i <? hi)%Z
     | _ => unsup "compiled loop counter"
     end.
-  Definition counter_incr (counter : oloc) : prog unit :=
-    o <- Prim (PGetObj counter) ;;
+  Definition counter_incr (counter : dloc) : prog unit :=
+    o <- obj_of counter ;;
     match o with
-    | ONum tn t (VI j) => Prim (PSetObj counter (ONum tn t (VI (wrap 32 true (j + 1)))))
+    | Some (ONum tn t (VI j)) => Prim (PWrite counter (ONum tn t (VI (wrap 32 true (j + 1))))) ;;; Ret tt
     | _ => unsup "compiled loop counter"
     end.
 
@@ -463,8 +459,10 @@ Section EVAL.
     match const_int (child 1 init), const_int (child 1 (child 1 orig)) with
     | Some lo, Some hi =>
         Scoped (
-          counter <- Prim (PAllocObj (ONum "int" (TI 32 true) (VI lo))) ;;
-          d <- Prim (PAllocData (mkdata (Some counter) false false)) ;;
+          (* the counter keeps its own handle on the int (the C++ closure's `int &i`): rebinding the
+             loop variable from script does not redirect the loop *)
+          d <- new_value (ONum "int" (TI 32 true) (VI lo)) false false ;;
+          counter <- Prim (PAlias d false) ;;
           add_object (a_text (child 0 init)) d ;;;
           b0 <- counter_below counter hi ;;
           if b0 then
@@ -792,12 +790,20 @@ Section EVAL.
                   end)).
 
   (* ------------------------------------------------------------ one node *)
+  (* Constant_AST_Node::eval_internal returns m_value: one Boxed_Value per node, created when the node is built
+     (here: on its first evaluation) and shared by every evaluation *)
   Definition eval_constant (n : ast) : prog dloc :=
-    match a_const n with
-    | Some (isc, CNum tn t v) => new_value (ONum tn t v) isc false
-    | Some (isc, CBool b) => new_value (OBool b) isc false
-    | Some (isc, CStr s) => new_value (OStr s) isc false
-    | _ => unsup "constant kind"
+    cached <- Prim (PGetConst (hint_key n)) ;;
+    match cached with
+    | Some d => Ret d
+    | None =>
+        d <- match a_const n with
+             | Some (isc, CNum tn t v) => new_value (ONum tn t v) isc false
+             | Some (isc, CBool b) => new_value (OBool b) isc false
+             | Some (isc, CStr s) => new_value (OStr s) isc false
+             | _ => unsup "constant kind"
+             end ;;
+        Prim (PSetConst (hint_key n) d) ;;; Ret d
     end.
 
   Definition node_prog (n : ast) : prog dloc :=
